@@ -73,14 +73,14 @@ type Excluded struct {
 
 // Msg is the expectation for one message occurrence.
 type Msg struct {
-	Proto    string     `json:"proto"` // proto message name
-	GoName   string     `json:"goname"`
-	Path     string     `json:"path"`
-	Attrs    []*Attr    `json:"attrs"`
-	Oneofs   []string   `json:"oneofs,omitempty"` // Go holder names, declaration order
-	Empty    bool       `json:"empty,omitempty"`
+	Proto  string   `json:"proto"` // proto message name
+	GoName string   `json:"goname"`
+	Path   string   `json:"path"`
+	Attrs  []*Attr  `json:"attrs"`
+	Oneofs []string `json:"oneofs,omitempty"` // Go holder names, declaration order
+	Empty  bool     `json:"empty,omitempty"`
 	// AllExcluded: the message has fields but the configuration excludes all of them
-	AllExcluded bool `json:"all_excluded,omitempty"`
-	Injected []Injected `json:"injected,omitempty"`
-	Excluded []Excluded `json:"excluded,omitempty"`
+	AllExcluded bool       `json:"all_excluded,omitempty"`
+	Injected    []Injected `json:"injected,omitempty"`
+	Excluded    []Excluded `json:"excluded,omitempty"`
 }
